@@ -458,7 +458,9 @@ def ite(c, a, b):
     if isinstance(a, (SInt, int)) and isinstance(b, (SInt, int)) and not isinstance(a, bool):
         s = a if isinstance(a, SInt) else b
         if not isinstance(s, SInt):
-            return a if False else SInt(z3.If(ct, z3.IntVal(a), z3.IntVal(b)), min(a, b), max(a, b))
+            if engine().int_mode == 'bv':
+                return SInt(z3.If(ct, z3.BitVecVal(a, W), z3.BitVecVal(b, W)), min(a, b), max(a, b))
+            return SInt(z3.If(ct, z3.IntVal(a), z3.IntVal(b)), min(a, b), max(a, b))
         a2, b2 = s._coerce(a), s._coerce(b)
         lo = None if None in (a2.lo, b2.lo) else min(a2.lo, b2.lo)
         hi = None if None in (a2.hi, b2.hi) else max(a2.hi, b2.hi)
@@ -889,7 +891,7 @@ def _align(xs, ys, depth):
     if xb and yb:
         f = _key_eq(x.key, y.key)
         if f is not None:
-            rest = _align(xs[1:], ys[1:], depth + 1)
+            rest = _align(xs[1:], ys[1:], depth)
             return None if rest is None else z3.And(f, rest)
         a = _align(xs[1:], ys, depth + 1)
         b = _align(xs, ys[1:], depth + 1)
@@ -907,7 +909,7 @@ def _align(xs, ys, depth):
         return None if b is None else z3.And(_len_zero(y), b)
     if x is None or y is None:
         return z3.BoolVal(False)
-    rest = _align(xs[1:], ys[1:], depth + 1)
+    rest = _align(xs[1:], ys[1:], depth)
     return None if rest is None else z3.And(x == y, rest)
 
 
